@@ -37,7 +37,7 @@ RULE = ('(a) seeded schedules (uniform / jittered / gapped IMU, time_step 0.1x i
 ASSUMPTIONS = ['F = 0.05 sd is an ABSOLUTE allowance (the one place an absolute number is used): piecewise-constant F over a covariance step, increment '
                'cross-terms ignored by the bias model and the neglected terms of C04 leave a first-order, scale-independent remainder (calibration: <= 0.022 sd over 600 ladders) in '
                'this workload domain (time_step <= 0.5 s, IMU step 12.5 ms, horizon <= 40 s)']
-REQUIRED_OBS = ['transparent_runs', 'transparent_with_outside_samples', 'transparent_with_default_measurements', 'ladder_runs', 'ladders_decided',
+REQUIRED_OBS = ['zero_data_sd_compared', 'transparent_runs', 'transparent_with_outside_samples', 'transparent_with_default_measurements', 'ladder_runs', 'ladders_decided',
                 'rerun_checks', 'scale_misal_ladders', 'two_d_ladders']
 REQUIRED_CLASSES = {'all': ['transparent', 'ladder', 'rerun']}
 F_ALLOW = 0.05
@@ -96,6 +96,8 @@ def run_transparent(case, out, obs):
     meas = sensors if sensors else S['measurements']
     err = pd.Series(S['init_err'], index=TERR)
     initial = sim.perturb_pva(S['traj'].iloc[0], err)
+    if not S['with_altitude'] and rng.random() < 0.6:
+        initial['VD'] = 0.0          # see the zero-data comparison below
     events.start()
     try:
         r = filters.run_feedback_filter(initial, 5, 1, 0.5, 1.0, S['increments'], S['gyro_model'], S['accel_model'], measurements=meas,
@@ -127,13 +129,46 @@ def run_transparent(case, out, obs):
     for nm in ('gyro', 'accel'):
         if len(r[nm].columns) and np.any(r[nm].values != 0):
             out.append(vio('estimates_without_data', f'{nm} estimates non-zero although no measurement was processed', schedule=S['describe']))
+    # zero-data limit of clause (b): without any feedback the two filters propagate the same covariance about the same (plain strapdown)
+    # trajectory on the same time grid, so every standard deviation must agree to rounding whatever the error size
+    # (in 2-D mode only for a level initial state: the feedback filter builds its initial covariance with the caller's VD, which the
+    # integrator then discards - a 1e-5 inconsistency of the initial sd that is no part of any property here)
+    if not S['with_altitude'] and initial['VD'] != 0.0:
+        return dict(schedule=S['describe'], rows=len(tr))
+    try:
+        from pyins import inertial_sensor
+        gm2 = S['gyro_model'] if S['gyro_model'] is not None else inertial_sensor.EstimationModel()
+        am2 = S['accel_model'] if S['accel_model'] is not None else inertial_sensor.EstimationModel()
+        ff = filters.run_feedforward_filter(I.trajectory, I.trajectory, 5, 1, 0.5, 1.0, gm2, am2, measurements=meas, increments=S['increments'],
+                                            time_step=S['time_step'], with_altitude=S['with_altitude'])
+        idx = ff['trajectory_sd'].index.intersection(r['trajectory_sd'].index)
+        obs['zero_data_sd_compared'] = 1
+        obs['zero_data_common_rows'] = len(idx)
+        if len(idx) < 0.8 * len(ff['trajectory_sd']):
+            out.append(vio('zero_data_grid', f'without measurements the filters use different time grids: {len(idx)} common of {len(ff["trajectory_sd"])} / '
+                           f'{len(r["trajectory_sd"])} rows', schedule=S['describe']))
+        for key in ('trajectory_sd', 'gyro_sd', 'accel_sd'):
+            a_, b_ = r[key].loc[idx].values.astype(float), ff[key].loc[idx].values.astype(float)
+            if a_.size == 0:
+                continue
+            rel = np.abs(a_ - b_) / np.maximum(np.abs(b_), 1e-300)
+            rel = np.where(np.abs(b_) > 0, rel, np.abs(a_))
+            obs['max_zero_data_sd_rel_x1e9'] = max(obs.get('max_zero_data_sd_rel_x1e9', 0), int(1e9 * min(rel.max(), 1.0)))
+            if rel.max() > 1e-6:
+                i, j = np.unravel_index(np.argmax(rel), rel.shape)
+                out.append(vio('zero_data_sd', f'{key}[{r[key].columns[j]}] at t={idx[i]}: feedback {a_[i, j]:.9e}, feedforward {b_[i, j]:.9e} although no '
+                               f'measurement was processed (rel {rel[i, j]:.2e}); time_step={S["time_step"]} models={S["model_kind"]}', schedule=S['describe']))
+                break
+    except Exception as e:
+        import traceback
+        out.append(vio('exception', f'feedforward on the plain strapdown trajectory: {type(e).__name__}: {e}', tb=traceback.format_exc()[-800:], schedule=S['describe']))
     return dict(schedule=S['describe'], rows=len(tr))
 
 
 def ladder_config(seed):
     rng = np.random.Generator(np.random.PCG64(seed))
     wa = bool(rng.integers(0, 2))
-    sm = bool(rng.random() < 0.4)
+    sm = bool(rng.random() < 0.5)
     T = float(rng.uniform(20, 40))
     ts = float(rng.choice([0.25, 0.5]))
     lla0 = [float(rng.uniform(-70, 70)), float(rng.uniform(-180, 180)), float(rng.uniform(0, 3000))]
@@ -145,7 +180,7 @@ def ladder_config(seed):
                 e_pos=(rng.uniform(-1, 1, 3)).tolist(), e_vel=(rng.uniform(-1, 1, 3)).tolist(), e_att=(rng.uniform(-1, 1, 3)).tolist(),
                 gb=(rng.uniform(-1, 1, 3) * 1e-4).tolist(), ab=(rng.uniform(-1, 1, 3) * 0.03).tolist(),
                 smat=(rng.uniform(-1, 1, (3, 3)) * 1e-3).tolist(), nseed=int(rng.integers(0, 2 ** 31)),
-                offgrid=bool(rng.integers(0, 2)), scale0=float(10 ** rng.uniform(-0.5, 0.5)))
+                offgrid=bool(rng.integers(0, 2)), dense=bool(rng.random() < 0.4), scale0=float(10 ** rng.uniform(-0.5, 0.5)))
 
 
 def ladder_run(cfg, s):
@@ -163,7 +198,7 @@ def ladder_run(cfg, s):
     meas = []
     k = 0
     for j, cls in enumerate(cfg['sensors']):
-        every = 2.0 + j * 0.75
+        every = (2.0 + j * 0.75) if not cfg.get('dense') else (0.3 + 0.2 * j)      # dense: fixes cut most covariance steps short
         e = np.arange(1.0 + 0.4 * j, t[-1] - 0.5, every)
         e = t[np.searchsorted(t, e)]
         if cfg['offgrid']:
